@@ -404,15 +404,22 @@ class Verifier(Exec):
         st.alloc = z3.Int("alloc0")
         st.assume(st.alloc > 0)
         st.ghost["RC"] = z3.Const("RC0", z3.ArraySort(INT, BOOL))
-        names = [a.arg for a in fdef.args.args]
+        names = [a.arg for a in fdef.args.args] + list(self.fwd_names)
+        if self.fwd_names:
+            st.env["$fwd"] = SV("fwd", None, list(self.fwd_names))
         for nm in names:
             if nm == "self":
                 z = z3.Int("self")
                 st.assume(z > 0)
                 st.assume(z < st.alloc)
-                st.env[nm] = SV("ref", z, con.cls)
-                if con.cls in CLASS_IDS:
-                    st.assume(self.hget(st, "$cls", z) == CLASS_IDS[con.cls])
+                if isinstance(con.cls, list):
+                    st.env[nm] = SV("ref", z, None)
+                    cid = self.hget(st, "$cls", z)
+                    st.assume(z3.Or(*[cid == CLASS_IDS[c] for c in con.cls]))
+                else:
+                    st.env[nm] = SV("ref", z, con.cls)
+                    if con.cls in CLASS_IDS:
+                        st.assume(self.hget(st, "$cls", z) == CLASS_IDS[con.cls])
                 continue
             k = kinds[nm]
             v = self.mk_value(st, k, nm)
@@ -465,6 +472,13 @@ class Verifier(Exec):
                 k += 1
         # case split over declared parameter alternatives
         pnames = [a.arg for a in fdef.args.args if a.arg != "self"]
+        self.fwd_names = []
+        if fdef.args.vararg or fdef.args.kwarg:
+            tgt = con.ghost.get("forward")
+            if not tgt:
+                raise Unsupported("%s takes *args/**kw and declares no forward target" % con.name)
+            self.fwd_names = [a.arg for a in self.sources[tgt].args.args if a.arg != "self"]
+            pnames = pnames + self.fwd_names
         alts = []
         for nm in pnames:
             spec = con.params.get(nm)
@@ -502,17 +516,22 @@ class Verifier(Exec):
         if o is None:
             o = ("return", NONE)
         if o[0] == "return":
+            wit = {}
+            for wn, wtxt in con.ghost.get("witness", {}).items():
+                lenv = dict(s.env)
+                lenv["result"] = o[1]
+                wit[wn] = self.sp(self.spec_expr(wtxt), s, lenv, ctx)
             s.env = dict(pre.env)
+            s.env.update(wit)
             s.env["result"] = o[1]
             if con.returns is not None:
-                want = parse_kind(con.returns)[0] if not isinstance(con.returns, tuple) else "tuple"
-                got = o[1].kind
-                if got != want and not (want == "ref" and got == "none") and \
-                        not (want == "V" and got == "int") and want != "dyn":
+                alts = con.returns if isinstance(con.returns, list) else [con.returns]
+                if not any(self.shape_ok(o[1], a) for a in alts):
                     self.oblige(s, "%s:returns-kind" % con.name, z3.BoolVal(False),
-                                "returned %s, contract says %s" % (got, want))
+                                "returned %s, contract says %s" % (self.shape(o[1]), alts))
                     return
-                if want == "ref" and got == "none":
+                if o[1].kind == "none" and any(
+                        not isinstance(a, tuple) and parse_kind(a)[0] == "ref" for a in alts):
                     s.env["result"] = SV("ref", z3.IntVal(0))
             for nm, txt in con.ensures.items():
                 self.oblige(s, "%s:post:%s" % (con.name, nm), self.spec(txt, ctx, state=s))
@@ -536,6 +555,20 @@ class Verifier(Exec):
                 self.frame_obligations(con, pre, s, "raise[%s]" % ecls)
         else:
             raise Unsupported("loop control outside loop")
+
+    def shape(self, v):
+        if v.kind == "tuple":
+            return ("tuple", [self.shape(x) for x in v.x])
+        return v.kind
+
+    def shape_ok(self, v, spec):
+        if isinstance(spec, tuple):
+            return v.kind == "tuple" and len(v.x) == len(spec[1]) and \
+                all(self.shape_ok(x, a) for x, a in zip(v.x, spec[1]))
+        want = parse_kind(spec)[0]
+        got = v.kind
+        return got == want or (want == "ref" and got == "none") or \
+            (want == "V" and got == "int") or (want == "int" and got == "bool") or want == "dyn"
 
     def frame_obligations(self, con, pre, s, tag, modifies=None):
         """Everything not listed in `modifies` and not fresh is unchanged."""
